@@ -1160,6 +1160,26 @@ class Interp:
                     return UNIT
                 except Unsupported:
                     pass
+        if re.search(r"(Hash|BTree|AHash|Index)Map<.*> as core::iter::traits::collect::Extend<.*>>::extend$|core::iter::traits::collect::Extend::extend$", g) and len(arg_nodes) == 2 \
+                and re.search(r"(Hash|BTree|AHash|Index)Map<", (core.strip(arg_nodes[0]).get("ty") or "") + (arg_nodes[0].get("aty") or "")):
+            # `map.extend(pairs)` is `for (k, v) in pairs { map.insert(k, v); }`: one insert sink per element, so that a
+            # rule that watches the map's inserts sees the same thing in either spelling
+            m = ev(0)
+            st = self.to_stream(ev(1))
+            dom = st[1]
+            self.loop_stack.append(dom)
+
+            def one():
+                el = self.stream_elem(st)
+                if isinstance(el, tuple) and el and el[0] == "tup" and len(el[1]) == 2:
+                    self.emit(("sink", "insert", ("tup", (m, el[1][0], el[1][1])), core.loc(n)))
+                else:
+                    self.emit(("sink", "insert", ("tup", (m, ("app", "pair.0", (el,)), ("app", "pair.1", (el,)))), core.loc(n)))
+            _, evs, ex = self.sub_events(one)
+            self.loop_stack.pop()
+            if evs:
+                self.emit(("rep", dom, evs, core.loc(n)))
+            return UNIT
         if g.endswith("VecDeque::<T, A>::push_front"):
             v = ev(1)
             self.push(arg_nodes[0], v, env, front=True)
